@@ -107,6 +107,24 @@ example :
   have := boundsheet_roundtrip 0x1234 (by omega) .veryHidden 3 .chartSheet 2 (by decide) [65, 233] (by decide) false (by decide)
   simpa [Biff.decodeUtf16, Biff.isHigh, Biff.isLow] using this
 
+/-- **names are exact.** A sheet name given as Unicode scalar values (none of them NUL, at most 255 UTF-16 units —
+    non-BMP characters count two), stored 16-bit, comes back character for character -/
+theorem boundsheet_name_exact (off : Nat) (hoff : off < 4294967296) (vis : SheetVisible) (reserved : Nat)
+    (kind : SheetType) (dt : Nat) (hk : xlsKindCode kind = some dt)
+    (name : Text) (hs : ∀ c ∈ name, isScalar c) (hz : ∀ c ∈ name, c ≠ 0) (hlen : (utf16 name).length < 256) :
+    parseSheetMetadata (encodeBoundSheet off (xlsVisCode vis + 64 * reserved) dt (utf16 name) true) true
+      = .ok (off, ⟨name, kind, vis⟩) := by
+  rw [boundsheet_roundtrip off hoff vis reserved kind dt hk (utf16 name) hlen true (by simpa using utf16_lt name hs)]
+  rw [decodeUtf16_utf16 name hs, filter_ne_zero name hz]
+
+/-- satisfiable with a non-BMP character and XML specials: "A&<😀" -/
+example :
+    parseSheetMetadata (encodeBoundSheet 7 (xlsVisCode .hidden) 0 (utf16 [65, 38, 60, 0x1F600]) true) true
+      = .ok (7, ⟨[65, 38, 60, 0x1F600], .workSheet, .hidden⟩) := by
+  have := boundsheet_name_exact 7 (by omega) .hidden 0 .workSheet 0 (by decide) [65, 38, 60, 0x1F600]
+    (by intro c hc; simp at hc; unfold isScalar; omega) (by decide) (by decide)
+  simpa using this
+
 /-- a state the table does not know is an error, never a silent default (here hsState = 3) -/
 theorem boundsheet_unknown_state_rejected (off dt : Nat) (us : List Nat) (wide : Bool) :
     ∃ e, parseSheetMetadata (encodeBoundSheet off 3 dt us wide) true = .err e := by
@@ -196,6 +214,16 @@ example :
 theorem bundlesh_roundtrip (rels : List (Text × String)) (s : XlsbSheet) (hs : s.ok rels) :
     bundleSh rels (encodeBundleSh (xlsbVisCode s.vis) s.tabId s.relUnits s.nameUnits) = .ok (some (s.decoded rels)) :=
   bundleSh_encode rels s hs
+
+/-- xlsb names are exact: a BrtBundleSh whose name is the UTF-16 encoding of a text of scalar values decodes to that text -/
+theorem bundlesh_name_exact (rels : List (Text × String)) (vis : SheetVisible) (tabId : Nat) (relUnits : List Nat) (name : Text)
+    (hn : ∀ c ∈ name, isScalar c) (hs : XlsbSheet.ok rels ⟨vis, tabId, relUnits, utf16 name⟩) :
+    ∃ kind path, bundleSh rels (encodeBundleSh (xlsbVisCode vis) tabId relUnits (utf16 name)) = .ok (some (⟨name, kind, vis⟩, path)) := by
+  refine ⟨((XlsbSheet.decoded rels ⟨vis, tabId, relUnits, utf16 name⟩).1).typ, (XlsbSheet.decoded rels ⟨vis, tabId, relUnits, utf16 name⟩).2, ?_⟩
+  have := bundlesh_roundtrip rels ⟨vis, tabId, relUnits, utf16 name⟩ hs
+  simp only at this
+  rw [this]
+  simp only [XlsbSheet.decoded, decodeUtf16_utf16 name hn]
 
 /-- **xlsb: sheets in part order, whatever the framing.** `workbook.bin` is any sequence of BrtBundleSh records,
     BrtWbProp records and records the loop does not interpret (any id below 2^14 other than the three it knows,
